@@ -184,6 +184,7 @@ pub fn c12_def() -> PropDef {
             "hit.sixteen_or_more_evaluations_abandoned_on_one_ruleset",
             "hit.four_or_more_evaluations_failed_as_a_whole_on_one_ruleset",
             "hit.four_or_more_evaluations_died_by_unwinding_on_one_ruleset",
+            "hit.interleaved_evaluations_nested_deeper_than_250",
         ],
     }
 }
